@@ -151,6 +151,11 @@ def build_program(states, rng, per_sig=6, kinds=("function",), max_sigs=None):
         for st in shapes:
             classes[image(st)].append(st)
         base = dict(f=fname, kind=kind)
+        if n % 6 == 4:
+            # every sixth function goes through a very verbose Memory (messages are built from the arguments and the metadata)
+            base.update(verbose=11, store="_V11")
+        elif n % 6 == 1:
+            base.update(verbose=1, store="_V1")          # the default verbosity
         for st in chosen:
             a, k = call_exprs(st, names, val_for(st))
             add(dict(base, args=a, kwargs=k, mode="check"), role="check_before", cls=(n, image(st)))
